@@ -231,12 +231,13 @@ PROPS["C17"] = {
 PROPS["C09"] = {
     "level": "exploration",
     "technique": "model-based stateful PBT (rapid) on nearly-full disks and a nearly-exhausted inode table with a before/after identity oracle for every failed request (allocators, on-disk bitmaps, cache-vs-disk coherence, whole tree), the reference model carried through the suffix and a restart, fsck at the end",
-    "level_text": "Disks with 60-600 data blocks, and in 1/5 of the cases an image whose inode table is exhausted up to 0..3 inodes (32k prefilled files, built once per process). A fill action leaves exactly 0..3 free blocks (steered by the allocator's free count); requests are chosen to fail after they have started to modify state: RENAME to a name the directory layer refuses after the source entry is removed, RENAME/CREATE into a directory whose last block is exactly full, CREATE/MKDIR/SYMLINK without blocks or inodes, appends that obtain an indirect block but no data block, multi-block writes that run out half-way (short writes are followed), symlink targets and writes larger than the journal. After every request that returned an error: the allocators' free counts and the on-disk bitmaps are identical to before, every cached inode and name table equals the disk, and the whole tree equals the reference (which ignored the request); the history continues, and at the end the reference still matches, also after a restart, and fsck and the coherence check pass.",
+    "level_text": "Disks with 60-600 data blocks, and in 1/5 of the cases an image whose inode table is exhausted up to 0..3 inodes (32k prefilled files, built once per process). A fill action leaves exactly 0..3 free blocks (steered by the allocator's free count); requests are chosen to fail after they have started to modify state: RENAME to a name the directory layer refuses after the source entry is removed, RENAME/CREATE into a directory whose last block is exactly full, CREATE/MKDIR/SYMLINK without blocks or inodes, appends that obtain an indirect block but no data block, multi-block writes that run out half-way (short writes are followed), symlink targets and writes larger than the journal. After every request that returned an error: the allocators' free counts and the on-disk bitmaps are identical to before, every cached inode and name table equals the disk, and the whole tree equals the reference (which ignored the request); the history continues, and at the end the reference still matches, also after a restart, and fsck and the coherence check pass. Refused requests are also seen from other clients: in enumerated windows a RENAME or CREATE with a name beyond the limit (refused after it has changed cached state) is held at each of its lock, commit and abort points while a second client looks up, creates, removes or renames the same names and, in one family, a third client pushes the directory's inode out of the cache by looking at 130 other files; no reply and nothing in the final state may show a trace of the refused request (linearizability oracle). Directed SETATTRs that must be refused as a whole (a size for a directory or symbolic link, a size beyond the maximum) carry times, mode and owner along: all attributes are compared before and after.",
     "level_note": "Whether a feasible request fails for lack of resources is decided by the server's status (the reference does not model free space); a wrong status as such is C02's subject. Reads of holes on a full disk are not generated (they end early rather than fail).",
     "rule": ("unit = one history. Non-trivial (counted per failed request): the fstxn abort hook saw the aborted transaction with dirty buffers, i.e. the request failed after it had started to modify state. distinct = FNV hash of (request, disk size, position in the history)."),
     "assumptions": COMMON_ASSUMPTIONS,
     "required_classes": ["failed_requests_checked_for_traces", "aborted_transactions_that_had_modified_state", "requests_failed_for_lack_of_resources", "case_with_nearly_exhausted_inode_table"],
     "units": [
+        {"test": "^TestC09Enum$", "norapid": True, "quick": {"shards": 8}, "thorough": {"shards": 16, "timeout": 3600}},
         {"test": "^TestC09Full$", "quick": {"checks": 40, "shards": 8, "steps": 40}, "thorough": {"checks": 700, "shards": 12, "steps": 60}},
     ],
 }
